@@ -241,7 +241,7 @@ def gen_defs_rebind(rng, k, max_inputs=4):
     expression (structurally) before and after a re-binding and in several definitions (cache hits), names that
     merely start with `_ret`, a return bit that is a bare name / a constant / equal to another return bit,
     definitions nobody reads, return bits defined before the last intermediate.  Like the front end, no definition
-    reads its own target except in the guarded form of an `if` statement (`t = ITE(g, e, t)`); a re-binding
+    reads its own target except in the guarded form of an `if` statement (`t = (t & ~g) | (g & e)`); a re-binding
     that reads the old value goes through the temporary `__<name>`."""
     n = rng.randint(2, max_inputs)
     inputs = [f"v{i}" for i in range(n)]
@@ -282,11 +282,12 @@ def gen_defs_rebind(rng, k, max_inputs=4):
         e = expr(rng.randint(1, 3))
         if reads(e, nm):
             # the front end never hands over a definition that reads its own target: visit_Assign / visit_AugAssign
-            # go through the temporary `__<name>`, visit_If builds the guarded form `t = ITE(g, e, t)`
+            # go through the temporary `__<name>`, visit_If builds the guarded form `t = (t & ~g) | (g & e)`
             if rng.random() < 0.3 and len(names) > 1:
                 g = rng.choice([x for x in names if x != nm])
                 clean = subst_sym(e, nm, rng.choice([x for x in names if x != nm]))
-                defs.append([nm, ["ite", ["sym", g], clean, ["sym", nm]]])
+                # as the front end hands it over: (t & ~g) | (g & e)
+                defs.append([nm, ["or", ["and", ["sym", nm], ["not", ["sym", g]]], ["and", ["sym", g], clean]]])
             else:
                 defs.append(["__" + nm, e])
                 defs.append([nm, ["sym", "__" + nm]])
